@@ -1,6 +1,8 @@
 //! group `zonefile` — C23, C24: src/zone_file (in-memory parser) through the public API.
 //!
 //! ops (see lean/QV/Driver/Zonefile.lean): zf, zfc, zfp, zfv, zf.u32 … zf.utf8
+//! group `zonewks` — C23 only: pretty-printed files holding IN WKS records with ports, op zfw
+//! (the verdict that isolates known finding D18, the bit order of the WKS bit map)
 use crate::common::*;
 use quandary::class::Class;
 use quandary::rr::Type;
@@ -146,6 +148,44 @@ fn show_ys(ys: &[Y]) -> String {
     format!("ok {}", v.join(";"))
 }
 
+/// an item with the bit-map octets of an IN WKS record bit-reversed (other items unchanged)
+fn rev_wks_item(item: &str) -> String {
+    let f: Vec<&str> = item.split(':').collect();
+    if f.len() == 7 && f[0] == "rec" && f[4] == "1" && f[5] == "11" {
+        if let Some(mut rd) = unhex(f[6]) {
+            for b in rd.iter_mut().skip(5) {
+                *b = b.reverse_bits();
+            }
+            return format!("{}:{}:{}:{}:{}:{}:{}", f[0], f[1], f[2], f[3], f[4], f[5], hex(&rd));
+        }
+    }
+    item.to_string()
+}
+
+/// op zfw: `same` / `wks-bits-reversed` (item by item equal to the expectation, or equal once
+/// the bit-map octets of an IN WKS record are bit-reversed — known finding D18) / `differs`
+fn wks_verdict(ys: &[Y], expected: &str) -> String {
+    let shown = show_ys(ys);
+    let body = shown.strip_prefix("ok ").unwrap_or(&shown).to_string();
+    let a: Vec<&str> = if body == "-" { Vec::new() } else { body.split(';').collect() };
+    let e: Vec<&str> = if expected == "-" { Vec::new() } else { expected.split(';').collect() };
+    if a == e {
+        format!("ok same {}", body)
+    } else if a.len() == e.len() && a.iter().zip(e.iter()).all(|(x, y)| x == y || rev_wks_item(x) == *y) {
+        format!("ok wks-bits-reversed {}", body)
+    } else {
+        format!("ok differs {}", body)
+    }
+}
+
+/// does an expectation hold an IN WKS record with a non-empty bit map?
+fn has_wks_ports(expected: &[String]) -> bool {
+    expected.iter().any(|it| {
+        let f: Vec<&str> = it.split(':').collect();
+        f.len() == 7 && f[0] == "rec" && f[4] == "1" && f[5] == "11" && f[6].len() > 10
+    })
+}
+
 fn verdict(ys: &[Y]) -> String {
     for (i, y) in ys.iter().enumerate() {
         match y {
@@ -199,6 +239,12 @@ fn std_op<T, F: Fn(&str) -> Option<T>, S: Fn(T) -> String>(h: &str, f: F, s: S) 
 
 pub fn run(op: &str, a: &[&str]) -> Option<String> {
     match (op, a) {
+        ("zfw", [pre, inp, ch, exp]) => {
+            let (Some(p), Some(i), Some((ro, k))) = (unhex(pre), unhex(inp), parse_chunk(ch)) else {
+                return Some("bad-op".into());
+            };
+            Some(guarded(|| wks_verdict(&run_parser(&p, &i, ro, k), exp)))
+        }
         ("zf", [pre, inp, ch]) | ("zfc", [pre, inp, ch]) | ("zfv", [pre, inp, ch]) | ("zfp", [pre, inp, ch, _]) => {
             let (Some(p), Some(i), Some((ro, k))) = (unhex(pre), unhex(inp), parse_chunk(ch)) else {
                 return Some("bad-op".into());
@@ -290,8 +336,10 @@ impl Rd {
                 w.push(*p);
                 if let Some(hi) = ports.iter().max() {
                     let mut bm = vec![0u8; (*hi as usize) / 8 + 1];
+                    // RFC 1035 §3.4.2: "The first bit corresponds to port 0, the second to port 1,
+                    // etc."; bits are numbered from the most significant one (§2.3.2)
                     for q in ports {
-                        bm[(*q as usize) / 8] |= 1 << (q % 8);
+                        bm[(*q as usize) / 8] |= 0x80u8 >> (q % 8);
                     }
                     w.extend(bm);
                 }
@@ -1494,6 +1542,40 @@ fn generic_streams(rng: &mut Rng, em: &mut Emitter, thorough: bool) {
     }
 }
 
+/// group `zonewks`: the pretty-printer stream restricted to files with IN WKS records that list
+/// ports, plus fixed cases; op zfw
+pub fn gen_wks(rng: &mut Rng, thorough: bool, em: &mut Emitter) {
+    let w = |a: [u8; 4], p: u8, ports: &[u16]| hex(&Rd::Wks(a, p, ports.to_vec()).wire());
+    let fixed: Vec<(String, String)> = vec![
+        ("a. 5 IN WKS 1.2.3.4 TCP 25\n".into(), format!("rec:1:016100:5:1:11:{}", w([1, 2, 3, 4], 6, &[25]))),
+        ("a. 5 IN WKS 1.2.3.4 TCP\n".into(), format!("rec:1:016100:5:1:11:{}", w([1, 2, 3, 4], 6, &[]))),
+        ("a. 5 IN WKS 1.2.3.4 udp 0 7\n".into(), format!("rec:1:016100:5:1:11:{}", w([1, 2, 3, 4], 17, &[0, 7]))),
+        ("a. 5 IN WKS 1.2.3.4 6 ( 65535\n 0 80 80 )\n".into(), format!("rec:1:016100:5:1:11:{}", w([1, 2, 3, 4], 6, &[65535, 0, 80]))),
+        (
+            "a. 5 IN WKS 1.2.3.4 TCP 25\nb. 5 IN WKS \\# 6 010203040640\nc. 5 IN A 1.2.3.4\n".into(),
+            format!("rec:1:016100:5:1:11:{};rec:2:016200:5:1:11:010203040640;rec:3:016300:5:1:1:01020304", w([1, 2, 3, 4], 6, &[25])),
+        ),
+        ("a. 5 IN WKS 1.2.3.4 255 8 9 10 11 12 13 14 15 23\n".into(), format!("rec:1:016100:5:1:11:{}", w([1, 2, 3, 4], 255, &[8, 9, 10, 11, 12, 13, 14, 15, 23]))),
+    ];
+    for (text, exp) in &fixed {
+        for ch in ["0", "1", "3"] {
+            emit_case(em, "zfw", b"", text.as_bytes(), ch, Some(exp));
+        }
+    }
+    let n = if thorough { 20_000 } else { 1_500 };
+    let mut kept = 0;
+    while kept < n {
+        let (text, expected) = pretty_file(rng, if kept % 10 == 0 { 25 } else { 6 });
+        if !has_wks_ports(&expected) {
+            continue;
+        }
+        kept += 1;
+        let ch = chunking(rng);
+        let ch = ch.trim_start_matches('r').to_string();
+        emit_case(em, "zfw", b"", &text, &ch, Some(&expected.join(";")));
+    }
+}
+
 pub fn gen(rng: &mut Rng, thorough: bool, em: &mut Emitter) {
     std_streams(rng, thorough, em);
     boundary_streams(rng, em, thorough);
@@ -1506,7 +1588,13 @@ pub fn gen(rng: &mut Rng, thorough: bool, em: &mut Emitter) {
         let exp = if expected.is_empty() { "-".to_string() } else { expected.join(";") };
         let ch = chunking(rng);
         let ch = ch.trim_start_matches('r').to_string();
-        emit_case(em, "zfp", b"", &text, &ch, Some(&exp));
+        if has_wks_ports(&expected) {
+            // IN WKS with ports: the bit map's bit order is known finding D18, judged by op zfw in
+            // group `zonewks` (C23 only); here the file still runs model ↔ implementation
+            emit_case(em, "zf", b"", &text, &ch, None);
+        } else {
+            emit_case(em, "zfp", b"", &text, &ch, Some(&exp));
+        }
         if i % 4 == 0 {
             emit_case(em, "zfc", b"", &text, &ch, None);
         }
